@@ -398,6 +398,51 @@ Example c17_tree_list_semantics_ex :
   fst (den_steps [TMap 1; TValidate BFailFast] [VInt 3; VInt 4]%Z) = None.
 Proof. repeat split; vm_compute; reflexivity. Qed.
 
+(* ---------- sequential engine: exact, also when the run fails ----------
+   With one partition the run's result and its appends (per collector, in order) are exactly
+   those of the list semantics; in particular when a fail-fast step fails, the log-mode steps in
+   front of it have already written one entry per invalid record they saw, and nothing else is
+   written. *)
+Theorem c17_tree_sequential_exact :
+  forall (ss : list tstep) (input : list val),
+    existsb is_tvalidation ss = true ->
+    tresult (trun_parts ss [input]) =
+      match fst (den_steps ss input) with Some out => Ok out | None => Panic end /\
+    map (map tentry_payload) (tlogs (trun_parts ss [input])) = [snd (den_steps ss input)].
+Proof. exact tree_sequential_exact. Qed.
+
+(* log to collector 1, then +1, then fail-fast: 5 and 7 are logged and dropped, 4 becomes 5 and
+   fails the run -- both entries are in the collector although the run panicked *)
+Example c17_tree_sequential_exact_ex :
+  let ss := [TValidate (BWithMode LogAndContinue (Some 1)); TMap 1; TValidate BFailFast] in
+  existsb is_tvalidation ss = true /\
+  den_steps ss [VInt 4; VInt 5; VInt 7]%Z = (None, [(1, false, [20]%Z); (1, false, [28; 29; 30]%Z)]) /\
+  tresult (trun_parts ss [[VInt 4; VInt 5; VInt 7]%Z]) = Panic.
+Proof. repeat split; vm_compute; reflexivity. Qed.
+
+(* ---------- a failing run: what the collectors may hold afterwards ----------
+   Let every partition run to its own end, completed or panicked at a fail-fast step (the parallel
+   engine gives no more than that: some partitions may not even have started).  Everything
+   appended is, as a multiset, part of what the list semantics appends when the fail-fast steps
+   are replaced by skip steps (relax_step): no entry for a record that no log-mode step could
+   have seen, no duplicates.  `run_pay ss p` = the payloads partition p appends. *)
+Theorem c17_tree_panic_bound :
+  forall (ss : list tstep) (ps : list (list val)),
+    exists rest,
+      Permutation (snd (den_steps (map relax_step ss) (concat ps)))
+                  (concat (map (run_pay ss) ps) ++ rest).
+Proof. exact tree_panic_bound. Qed.
+
+(* log (collector 0), then -8, then fail-fast: the first partition fails (4 - 8 < 0) after logging
+   5, the second completes after logging 6; the bound holds with nothing to spare *)
+Example c17_tree_panic_bound_ex :
+  let ss := [TValidate (BWithMode LogAndContinue (Some 0)); TMap (-8); TValidate BFailFast] in
+  let ps := [[VInt 4; VInt 5]; [VInt 6; VInt 8]]%Z in
+  map (run_fst ss) ps = [Panic; Ok [VInt 0]] /\
+  concat (map (run_pay ss) ps) = [(0, false, [20]%Z); (0, false, [24; 25]%Z)] /\
+  snd (den_steps (map relax_step ss) (concat ps)) = [(0, false, [20]%Z); (0, false, [24; 25]%Z)].
+Proof. repeat split; vm_compute; reflexivity. Qed.
+
 (* ---------- branching + written order together ----------
    In any pipeline tree, whatever else is attached before or after, a handle whose lineage
    contains a validation builder computes the list semantics of its own lineage. *)
